@@ -73,6 +73,28 @@ fn positive(c: &mut Case<'_>) -> CaseResult {
     c.set_sample(|| json!({"op": op, "cfg": format!("{cfg:?}"), "request": format!("{} {}", req.method, req.uri), "host": req.headers.get("host").map(|h| h.to_str().unwrap_or("").to_owned()), "calls": calls.iter().map(|c| c.op).collect::<Vec<_>>() }));
     let names: Vec<&str> = calls.iter().map(|c| c.op).collect();
     if names == [op] {
+        // The Rust SDK appends the informational pair `x-id=<Operation>` to the query of about a third of the
+        // operations; the REST API reference shows these requests without it and every other client (boto3, aws-cli,
+        // Java, Go, curl) sends them that way.  The same request without the pair denotes the same operation.
+        let q = req.uri.query().unwrap_or("");
+        if q.split('&').any(|kv| kv.starts_with("x-id=")) {
+            let rest: Vec<&str> = q.split('&').filter(|kv| !kv.is_empty() && !kv.starts_with("x-id=")).collect();
+            let pq = if rest.is_empty() { req.uri.path().to_owned() } else { format!("{}?{}", req.uri.path(), rest.join("&")) };
+            let mut parts = req.uri.clone().into_parts();
+            parts.path_and_query = Some(pq.parse().expect("path and query without x-id"));
+            let mut r2 = req.clone();
+            r2.uri = http::Uri::from_parts(parts).expect("uri without x-id");
+            st.recorder.take_calls();
+            let resp = block_on(crate::wiretap::call_raw(&st.wire.service, r2.to_request(s3s::Body::http_body(crate::wiretap::FrameBody::single(r2.body.clone())))));
+            let calls2 = st.recorder.take_calls();
+            let names2: Vec<&str> = calls2.iter().map(|c| c.op).collect();
+            c.label("without-x-id");
+            if names2 != [op] {
+                let (status, body) = resp.as_ref().map(|r| (r.status, r.body_text())).unwrap_or((0, String::new()));
+                let sig = if names2.is_empty() { format!("not-invoked:{op}") } else { format!("misrouted:{op}->{}", names2.join("+")) };
+                return Err(c.fail(sig, format!("{} {} (the SDK's request without its x-id pair; model: {} {}) under {cfg:?}: backend calls {names2:?}, response {status} {}\nrequest:\n{}", r2.method, r2.uri, mop.method, mop.uri, crate::engine::truncate(&body, 300), r2.render())));
+            }
+        }
         return Ok(());
     }
     let status = resps.first().and_then(|r| r.as_ref().ok()).map(|r| r.status).unwrap_or(0);
